@@ -85,6 +85,9 @@ func init() {
 				}
 			}
 			text, pr := dsl.PrintRulesLead(rules, c.Lay, c.Lead)
+			if tooCostly(x, text) {
+				return
+			}
 			if len(c.Lead) > 1 {
 				x.Class("text-starts-with-blank-or-comment-lines")
 			}
